@@ -156,7 +156,7 @@ def run_ops(case, ctx):
         kinds = set()
         attach.reset(record_ops=True)
         for step in range(nops):
-            op = G.pick(rng, ['att', 'gain', 'ase', 'nli', 'split', 'att_vec', 'ase', 'nli'])
+            op = G.pick(rng, ['att', 'gain', 'ase', 'nli', 'split', 'att_vec', 'ase', 'nli', 'fork'])
             n = si.number_of_channels
             fr = [float(f) for f in si.frequency]
             if op == 'att':
@@ -191,6 +191,25 @@ def run_ops(case, ctx):
                 for f, v, pp in zip(fr, x, p):
                     r = ld(v) / ld(pp)
                     S[f] *= (1 - r); A[f] *= (1 - r); N[f] = N[f] * (1 - r) + ld(v)  # noqa
+            elif op == 'fork':
+                # the same spectrum handed to two consumers (a broadcast to two directions, two band amplifiers fed
+                # from one input): what one of them does to its copy must not show in the other one nor in the parent
+                whole = {'f_min': si.frequency[0] - 1e12, 'f_max': si.frequency[-1] + 1e12}
+                part = {'f_min': si.frequency[0] - 1e12, 'f_max': si.frequency[n // 2] + si.slot_width[n // 2]}
+                c1 = info.demuxed_spectral_information(si, G.pick(rng, [whole, part]))
+                c2 = info.demuxed_spectral_information(si, G.pick(rng, [whole, part]))
+                if c1 is None or c2 is None:
+                    continue
+                before_parent, before_c2 = P.chan_tuples(attach.Snap(si)), P.chan_tuples(attach.Snap(c2))
+                c1.add_ase(np.asarray(c1.pch, dtype=float) * 0.01)       # (noise powers in double precision, as the
+                c1.add_nli(np.asarray(c1.pch, dtype=float) * 0.02)       # elements compute them)
+                c1.apply_attenuation_db(3.0)
+                ctx.count('fork_checks')
+                check_shares(ctx, attach.Snap(c1), f'ops step {step} (fork, first consumer)')
+                if P.chan_tuples(attach.Snap(si)) != before_parent or P.chan_tuples(attach.Snap(c2)) != before_c2:
+                    ctx.violation('fork-aliasing', 'operations on one band-split copy of a spectrum changed the parent '
+                                  'spectrum or a sibling copy (shared arrays)')
+                    break
             elif op == 'split':
                 if n < 2:
                     continue
